@@ -163,6 +163,28 @@ class SoftView(collections.abc.Mapping):
         return sum(1 for _ in self)
 
 
+def _open_archive(file_like: typing.BinaryIO) -> zipfile.ZipFile:
+    """Open the zip archive that follows the header, at the current position of the file.
+
+    zipfile locates an archive from the END of the file, so in a truncated file it can
+    find an end record spelled by the payload (biases are arbitrary bytes). The members
+    must therefore tile the file from the current position up to the central directory.
+    """
+    pos = file_like.tell()
+    zf = zipfile.ZipFile(file_like, mode='r')
+    for info in sorted(zf.infolist(), key=lambda info: info.header_offset):
+        file_like.seek(info.header_offset + 26)
+        lengths = file_like.read(4)  # lengths of the name and of the extra field
+        if info.header_offset != pos or len(lengths) != 4:
+            pos = -1
+            break
+        pos += 30 + int.from_bytes(lengths[:2], 'little') + int.from_bytes(lengths[2:], 'little') + info.compress_size
+    if pos != zf.start_dir:
+        zf.close()
+        raise ValueError("truncated or corrupted file: the archive does not start after the header")
+    return zf
+
+
 class ConstrainedQuadraticModel(cyConstrainedQuadraticModel):
     r"""A constrained quadratic model.
 
@@ -971,7 +993,7 @@ class ConstrainedQuadraticModel(cyConstrainedQuadraticModel):
 
         cqm = cls()
 
-        with zipfile.ZipFile(file_like, mode='r') as zf:
+        with _open_archive(file_like) as zf:
             cqm.set_objective(load(zf.read("objective")))
 
             constraint_labels = set()
@@ -1073,7 +1095,7 @@ class ConstrainedQuadraticModel(cyConstrainedQuadraticModel):
 
         cqm = cls()
 
-        with zipfile.ZipFile(file_like, mode='r') as zf:
+        with _open_archive(file_like) as zf:
             # add the variables to the model
             with zf.open("varinfo") as f:
                 cqm._ivarinfo_load(VartypesSection.load(f), num_variables)
